@@ -105,6 +105,17 @@ def handleServe (op : String) (args : List String) (impl : Option (List String))
         | _ => "bad:protocol"
       some ⟨model, spec⟩
     | _, _, _, _, _ => some badProto
+  | "trunc", [_opName, dS, sS] =>
+    -- a peer that announces `declared` response bytes, sends fewer and closes: the read of the
+    -- frame fails (`Wire.readFrame` on a truncated body), so the caller gets an error — whatever
+    -- the operation, never a result made of the bytes that did arrive
+    match dS.toNat?, sS.toNat? with
+    | some d, some sn =>
+      let model := if sn < d then ["error"] else ["result"]
+      some ⟨model, impl.map fun out =>
+        if out.head? == some "crash" then "bad:crash"
+        else if sn < d && out != ["error"] then "bad:truncated-response-accepted" else "ok"⟩
+    | _, _ => some badProto
   | "rpc", opName :: rest =>
     -- layout: op, params…, slots, slotErr, keyblob, pem
     if rest.length < 4 then some badProto else
